@@ -2,7 +2,7 @@
 # selftest/run_seeded.sh [dir-with-<id>/...]: run each seeded change against the quick check of its property.
 # Uses a scratch worktree of /repo (never /repo itself) through PYEMV_REPO; removes it afterwards.
 HERE="$(cd "$(dirname "$0")/.." && pwd)"
-SRC="${1:-$HERE/seeded}"
+SRC="$(cd "${1:-$HERE/seeded}" && pwd)"
 WT="${VERIF_WT:-/tmp/verif-selftest-wt-$$}"
 git -C /repo worktree remove --force $WT 2>/dev/null
 git -C /repo worktree add -q --detach $WT HEAD || exit 2
